@@ -166,12 +166,9 @@ struct Array {
 
     inline void operator+=(const Type_T &item) {
         if (Size() == Capacity()) {
-#ifdef HANIAMMAR_QENTEM_ENGINE_VERIF
-            // Verification hook: exact-fit growth, so the end of the block is the logical end of the array.
-            resize((Capacity() < SizeT{1024}) ? (Capacity() + SizeT{1}) : (Capacity() * SizeT{2}));
-#else
-            resize((Capacity() | (Capacity() == 0)) * SizeT{2});
-#endif
+            // The item can be an element of this array: copy it before the storage moves.
+            *this += Type_T{item};
+            return;
         }
 
         Memory::Initialize((Storage() + Size()), item);
